@@ -108,7 +108,7 @@ mod verif_chain_kb {
     // unwound iteration.  CBMC then creates one heap object of symbolic size per site; every block written or
     // read through the result pointer is encoded against all of them, and the propositional encoding exhausts
     // 60 GB already for two-block chains (measured; four conditional pushes alone: 3.5 M variables).
-    // The model is a POOL ALLOCATOR: a few real heap objects per size class (1, 2, 3, 4 and 8 AsBlocks of
+    // The model is a POOL ALLOCATOR: a few real heap objects per size class (1, 2 and 4 AsBlocks of
     // 12 bytes, alignment 4) are obtained from Kani's built-in allocator when the harness starts and are handed
     // out in order, each at most once.  This is a legal behaviour of the global allocator (distinct live blocks
     // of exactly the requested size; realloc keeps the old contents; freed blocks are never reused), so nothing
@@ -116,25 +116,26 @@ mod verif_chain_kb {
     // has exactly the requested size.  A request of any other size or alignment, or more requests than the
     // pool holds, FAILS the harness (panic) - it is not assumed away.  `copy_model` replaces
     // core::ptr::copy_nonoverlapping (reached through `self.0[..idx].into()` with a symbolic length, which CBMC
-    // encodes as a symbolic-size array copy) by the equivalent element-wise copy of at most 4 elements
+    // encodes as a symbolic-size array copy) by the equivalent element-wise copy of at most 2 elements
     // (asserted).  Native replay uses the real allocator and the real copy.
     #[cfg(kani)]
     mod pool {
         use std::alloc::{alloc_zeroed, dealloc, Layout};
         use core::ptr::{addr_of_mut, null_mut, NonNull};
-        const K: usize = 4;
-        static mut POOL: [[*mut u8; K]; 5] = [[null_mut(); K]; 5];
-        static mut USED: [usize; 5] = [0; 5];
-        const SIZE: [usize; 5] = [12, 24, 36, 48, 96];
+        /// size classes: buffers of 1, 2 and 4 AsBlocks; number of objects per class
+        const SIZE: [usize; 3] = [12, 24, 48];
+        const AVAIL: [usize; 3] = [1, 1, 4];
+        static mut POOL: [[*mut u8; 4]; 3] = [[null_mut(); 4]; 3];
+        static mut USED: [usize; 3] = [0; 3];
         /// called first in every harness that uses the model (alloc_zeroed is not stubbed: real objects)
         pub fn init() {
             macro_rules! fill { ($c:literal, $($k:literal)*) => { $( unsafe { (*addr_of_mut!(POOL))[$c][$k] = alloc_zeroed(Layout::from_size_align_unchecked(SIZE[$c], 4)); } )* } }
-            fill!(0, 0); fill!(1, 0); fill!(2, 0); fill!(3, 0 1 2 3); fill!(4, 0);
+            fill!(0, 0); fill!(1, 0); fill!(2, 0 1 2 3);
         }
-        unsafe fn take(class: usize, avail: usize) -> *mut u8 {
+        unsafe fn take(class: usize) -> *mut u8 {
             unsafe {
                 let k = (*addr_of_mut!(USED))[class];
-                assert!(k < avail, "allocator model: pool exhausted");
+                assert!(k < AVAIL[class], "allocator model: pool exhausted");
                 (*addr_of_mut!(USED))[class] = k + 1;
                 (*addr_of_mut!(POOL))[class][k]
             }
@@ -143,23 +144,22 @@ mod verif_chain_kb {
         pub unsafe fn alloc(layout: Layout) -> *mut u8 {
             assert!(layout.align() == 4, "allocator model: only Vec<AsBlock> buffers (alignment 4)");
             unsafe { match layout.size() {
-                48 => take(3, 4), 12 => take(0, 1), 24 => take(1, 1), 36 => take(2, 1), 96 => take(4, 1),
+                48 => take(2), 12 => take(0), 24 => take(1),
                 _ => panic!("allocator model: unexpected buffer size"),
             } }
         }
         /// stands in for alloc::alloc::realloc_nonnull (contract of GlobalAlloc::realloc: a block of new_size
-        /// bytes holding the first min(old, new) bytes of the old block, which is freed)
+        /// bytes holding the first min(old, new) bytes of the old block, which is freed).  Only the growth
+        /// steps 1 -> 4 and 2 -> 4 blocks occur (Vec's amortised growth from an exactly sized prefix copy).
         pub unsafe fn realloc(ptr: NonNull<u8>, layout: Layout, new_size: usize) -> *mut u8 {
-            assert!(layout.align() == 4 && layout.size() < new_size, "allocator model: Vec<AsBlock> buffers only grow");
+            assert!(layout.align() == 4 && new_size == 48, "allocator model: Vec<AsBlock> buffers only grow to 4 blocks");
             unsafe {
-                let new = match new_size { 48 => take(3, 4), 96 => take(4, 1), _ => panic!("allocator model: unexpected new size") };
+                let new = take(2);
                 let (s, d) = (ptr.as_ptr() as *const u32, new as *mut u32);
                 macro_rules! w { ($($i:literal)*) => { $( d.add($i).write(s.add($i).read()); )* } }
                 match layout.size() {
                     12 => { w!(0 1 2); }
                     24 => { w!(0 1 2 3 4 5); }
-                    36 => { w!(0 1 2 3 4 5 6 7 8); }
-                    48 => { w!(0 1 2 3 4 5 6 7 8 9 10 11); }
                     _ => panic!("allocator model: unexpected old size"),
                 }
                 dealloc(ptr.as_ptr(), layout);
@@ -170,14 +170,17 @@ mod verif_chain_kb {
         pub unsafe fn no_realloc(ptr: NonNull<u8>, layout: Layout, new_size: usize) -> *mut u8 {
             panic!("allocator model: no reallocation expected in this harness")
         }
+        /// stands in for core::slice::sort::unstable::ipnsort, the branch of sort_unstable* for slices of more
+        /// than 20 elements (recursive quicksort; CBMC unfolds it although the slices here have at most 3 elements)
+        pub fn no_ipnsort<T, F: FnMut(&T, &T) -> bool>(v: &mut [T], is_less: &mut F) {
+            panic!("sort model: no slice of more than 20 elements is sorted in this harness")
+        }
         /// stands in for core::ptr::copy_nonoverlapping
         pub unsafe fn copy_model<T>(src: *const T, dst: *mut T, count: usize) {
-            assert!(count <= 4, "copy model: at most 4 elements");
+            assert!(count <= 2, "copy model: at most 2 elements");
             unsafe {
                 if count > 0 { dst.write(src.read()); }
                 if count > 1 { dst.add(1).write(src.add(1).read()); }
-                if count > 2 { dst.add(2).write(src.add(2).read()); }
-                if count > 3 { dst.add(3).write(src.add(3).read()); }
             }
         }
     }
@@ -263,8 +266,8 @@ mod verif_chain_kb {
     //@harness chain_kb_eq_n3 Kb fn=Chain::eq bound="chains of at most 3 blocks, bounds and probe symbolic" timeout=900
     eq_body!(chain_kb_eq_n3, 5, 3);
 
-    macro_rules! trim_body { ($name:ident, $unwind:literal, $bn:expr, $bm:expr) => {
-        pair_harness!($name, $unwind, realloc, $bn, $bm, |s, o, os, oo, x| {
+    macro_rules! trim_body { ($name:ident, $unwind:literal, $realloc:ident, $bn:expr, $bm:expr) => {
+        pair_harness!($name, $unwind, $realloc, $bn, $bm, |s, o, os, oo, x| {
             let cs = os.as_chain();
             match cs.trim(&oo) {
                 Ok(()) => {
@@ -280,13 +283,13 @@ mod verif_chain_kb {
         });
     }}
     //@harness chain_kb_trim_s1_o1 Kb fn=Chain::trim bound="self and other at most 1 block, bounds and probe symbolic" timeout=900
-    trim_body!(chain_kb_trim_s1_o1, 3, 1, 1);
+    trim_body!(chain_kb_trim_s1_o1, 3, no_realloc, 1, 1);
     //@harness chain_kb_trim_s2_o1 Kb fn=Chain::trim bound="self at most 2 blocks, other at most 1 block, bounds and probe symbolic" timeout=1800 thorough
-    trim_body!(chain_kb_trim_s2_o1, 4, 2, 1);
+    trim_body!(chain_kb_trim_s2_o1, 4, realloc, 2, 1);
     //@harness chain_kb_trim_s1_o2 Kb fn=Chain::trim bound="self at most 1 block, other at most 2 blocks, bounds and probe symbolic" timeout=1800 thorough
-    trim_body!(chain_kb_trim_s1_o2, 5, 1, 2);
+    trim_body!(chain_kb_trim_s1_o2, 5, no_realloc, 1, 2);
     //@harness chain_kb_trim_n2 Kb fn=Chain::trim bound="self and other at most 2 blocks, bounds and probe symbolic" timeout=3600 thorough
-    trim_body!(chain_kb_trim_n2, 6, 2, 2);
+    trim_body!(chain_kb_trim_n2, 6, realloc, 2, 2);
 
     macro_rules! difference_body { ($name:ident, $unwind:literal, $bn:expr, $bm:expr) => {
         pair_harness!($name, $unwind, no_realloc, $bn, $bm, |s, o, os, oo, x| {
@@ -303,13 +306,19 @@ mod verif_chain_kb {
     difference_body!(chain_kb_difference_n2, 5, 2, 2);
 
     // ---------------- OwnedChain::from_iter -------------------------------------------------------
+    /// stands in for chain::from_iter_unsorted in the fast-path harnesses: reaching it fails the harness
+    fn no_unsorted<T: Block, I: Iterator<Item = T>>(res: Vec<T>, block: T, iter: I) -> OwnedChain<T> {
+        panic!("from_iter left its fast path on input with ascending lower bounds")
+    }
     /// input blocks in ascending order of their lower bounds: from_iter never leaves its fast path
     fn sorted_by_lo(s: &Sp) -> bool { all_i!(i, i + 1 >= s.n || s.lo[i] <= s.lo[i + 1]) }
-    macro_rules! from_iter_body { ($name:ident, $unwind:literal, $bound:expr, $sorted:expr) => {
-        verif_harness!{ #[kani::unwind($unwind)] #[kani::stub(std::alloc::alloc, pool::alloc)] #[kani::stub(alloc::alloc::realloc_nonnull, pool::no_realloc)]
-                        #[kani::stub(core::ptr::copy_nonoverlapping, pool::copy_model)]
+    macro_rules! from_iter_body { ($name:ident, $unwind:literal, $bound:expr, $exact:expr, $sorted:expr $(, #[$extra:meta])*) => {
+        verif_harness!{ $(#[$extra])* #[kani::unwind($unwind)] #[kani::stub(std::alloc::alloc, pool::alloc)] #[kani::stub(alloc::alloc::realloc_nonnull, pool::no_realloc)]
+                        #[kani::stub(core::ptr::copy_nonoverlapping, pool::copy_model)] #[kani::stub(core::slice::sort::unstable::ipnsort, pool::no_ipnsort)]
                         $name; |n: u8, a0: u32, a1: u32, b0: u32, b1: u32, c0: u32, c1: u32, va: u8, x: u32| {
             pool::init();
+            // $exact: the number of blocks is the constant $bound (keeps the iterator length concrete for CBMC)
+            let n: u8 = if $exact { $bound } else { n };
             assume(n <= $bound);
             let s = sp3(n, a0, a1, b0, b1, c0, c1);
             // arbitrary non-empty blocks, overlapping / adjacent / repeated as they come
@@ -322,8 +331,12 @@ mod verif_chain_kb {
         }}
     }}
     //@harness chain_kb_from_iter_sorted_n2 Kb fn=OwnedChain::from_iter bound="at most 2 input blocks, ascending lower bounds (fast path), bounds and probe symbolic" timeout=900
-    from_iter_body!(chain_kb_from_iter_sorted_n2, 4, 2, true);
+    from_iter_body!(chain_kb_from_iter_sorted_n2, 4, 2, false, true, #[kani::stub(crate::repository::resources::chain::from_iter_unsorted, no_unsorted)]);
+    //@harness chain_kb_from_iter_sorted_n3 Kb fn=OwnedChain::from_iter bound="at most 3 input blocks, ascending lower bounds (fast path), bounds and probe symbolic" timeout=1800 thorough
+    from_iter_body!(chain_kb_from_iter_sorted_n3, 5, 3, false, true, #[kani::stub(crate::repository::resources::chain::from_iter_unsorted, no_unsorted)]);
     //@harness chain_kb_from_iter_unsorted_n2 Kb fn=OwnedChain::from_iter,from_iter_unsorted,merge_or_add_block bound="exactly 2 input blocks, second starts below the first (slow path), bounds and probe symbolic" timeout=1800
-    from_iter_body!(chain_kb_from_iter_unsorted_n2, 4, 2, false);
+    from_iter_body!(chain_kb_from_iter_unsorted_n2, 4, 2, true, false);
+    //@harness chain_kb_from_iter_unsorted_n3 Kb fn=OwnedChain::from_iter,from_iter_unsorted,merge_or_add_block bound="exactly 3 input blocks, lower bounds not ascending (slow path), bounds and probe symbolic" timeout=3600 thorough
+    from_iter_body!(chain_kb_from_iter_unsorted_n3, 5, 3, true, false);
 }
 //@end
